@@ -10,9 +10,15 @@ import SMV.Model.World
   coroutine function); `_get_engine` picks the `AsyncEngine` iff `has_async_callbacks`.
 * `add_listener(*ls)` resolves the names against `[*ls]` only and appends to the executors; the
   engine is *not* chosen again (known finding D12).
-* `__setstate__`, as is (`fixed = false`): `_register_callbacks([])` — check and engine choice on
-  machine + model only — and afterwards `add_listener(*listeners)`. Repaired (`fixed = true`):
-  `_register_callbacks(listeners)`.
+* `__setstate__`, three generations:
+  - as the pinned tree had it (`setstate false`): `_register_callbacks([])` — check and engine choice on
+    machine + model only — and afterwards `add_listener(*listeners)`;
+  - after the repair of D25 (`setstate true`): `_register_callbacks(listeners)`, every remembered listener in
+    the constructor pass (same *set* of resolved callbacks as the original, `C17_registry_late`, but guard
+    *expressions* are then built over all providers at once: D29);
+  - now (`setstateReplay`, repair of D29): the listeners of every `add_listener` call are remembered
+    (`_listener_passes`) and the passes are replayed: constructor pass, check, engine choice, then one
+    `add_listener` per remembered call — literally what the original went through (`original`).
 
 Executable definitions only. Abstractions: one flat executor for all callback groups (the key is
 (name, provider), which is what `CallbacksExecutor.add` deduplicates on within one group; `names`
@@ -55,5 +61,21 @@ def setstate (fixed : Bool) (isCoro : CbId → Bool) (mm ls : List Provider) (na
     match registerAll isCoro mm names required with
     | .ok r => .ok (addListeners r ls names)
     | .error e => .error e
+
+/-- what an instance went through: constructed over `mm ++ ctor`, then one `add_listener(*ls)` per element of
+`lates`, in order -/
+def original (isCoro : CbId → Bool) (mm ctor : List Provider) (lates : List (List Provider))
+    (names required : List Name) : Except Exc Reg :=
+  match registerAll isCoro (mm ++ ctor) names required with
+  | .ok r => .ok (lates.foldl (fun r ls => addListeners r ls names) r)
+  | .error e => .error e
+
+/-- `__setstate__` as it is now: `passes[0]` with the machine and the model through `_register_callbacks`
+(check, engine choice), then `add_listener(*late)` for every later pass -/
+def setstateReplay (isCoro : CbId → Bool) (mm : List Provider) (passes : List (List Provider))
+    (names required : List Name) : Except Exc Reg :=
+  match registerAll isCoro (mm ++ passes.headD []) names required with
+  | .ok r => .ok (passes.tail.foldl (fun r ls => addListeners r ls names) r)
+  | .error e => .error e
 
 end SMV.Prov
